@@ -6,7 +6,6 @@
 package srvlife
 
 import (
-	"sort"
 	"bytes"
 	"context"
 	"encoding/json"
@@ -15,6 +14,7 @@ import (
 	"net"
 	"os"
 	"runtime"
+	"sort"
 	"strings"
 	"sync"
 	"sync/atomic"
@@ -387,7 +387,9 @@ func Run(c Case) int {
 			}
 			cc := lime.NewClientChannel(t, 4)
 			ses, err := cc.EstablishSession(ctx, nil, nil, lime.Identity{Name: name, Domain: "example.com"},
-				func([]lime.AuthenticationScheme, lime.Authentication) lime.Authentication { return &lime.GuestAuthentication{} }, "i")
+				func([]lime.AuthenticationScheme, lime.Authentication) lime.Authentication {
+					return &lime.GuestAuthentication{}
+				}, "i")
 			if err != nil || ses.State != lime.SessionStateEstablished {
 				_ = cc.Close()
 				return
